@@ -215,3 +215,18 @@ impl RuntimeState {
         }
     }
 }
+
+#[cfg(vrl_verif)]
+impl RuntimeState {
+    /// verification hook: all runtime variables, sorted by name.
+    #[must_use]
+    pub fn verif_variables(&self) -> Vec<(String, Value)> {
+        let mut vars: Vec<(String, Value)> = self
+            .variables
+            .iter()
+            .map(|(k, v)| (k.to_string(), v.clone()))
+            .collect();
+        vars.sort_by(|a, b| a.0.cmp(&b.0));
+        vars
+    }
+}
